@@ -6,10 +6,13 @@ package manager
 // bin/conf/C20.py). DESIGN.md §5 C20.
 
 import (
+	"encoding/binary"
 	"encoding/json"
 	"fmt"
 	"net"
 	"os"
+	"path/filepath"
+	"sort"
 	"strings"
 	"sync"
 	"testing"
@@ -156,7 +159,31 @@ func c20Prop(rt *rapid.T, c *vlib.Case, t *testing.T) {
 	fed := false
 	steps := rapid.IntRange(8, 30).Draw(rt, "steps")
 	for i := 0; i < steps; i++ {
-		switch rapid.SampledFrom([]string{"import", "import", "tag", "tag", "tag", "mark", "conv", "conv", "reset", "view", "pause", "endpoint", "hook", "config"}).Draw(rt, "step") {
+		switch rapid.SampledFrom([]string{"import", "import", "tag", "tag", "tag", "mark", "conv", "conv", "reset", "view", "pause", "endpoint", "hook", "config", "grow"}).Draw(rt, "step") {
+		case "grow":
+			// the capture tool is still writing: an already handed over capture file gets one more record (a copy of
+			// its first one); later imports read the file again. No oracle looks at stream contents here.
+			var names []string
+			for _, n := range r.tr.Written {
+				names = append(names, n)
+			}
+			sort.Strings(names)
+			if len(names) == 0 {
+				continue
+			}
+			n := rapid.SampledFrom(names).Draw(rt, "grown")
+			path := filepath.Join(e.dirs.pcap, n)
+			if b, err := os.ReadFile(path); err == nil && len(b) >= 40 {
+				incl := int(binary.LittleEndian.Uint32(b[32:36]))
+				if 40+incl <= len(b) {
+					if f, err := os.OpenFile(path, os.O_APPEND|os.O_WRONLY, 0o644); err == nil {
+						_, _ = f.Write(b[24 : 40+incl])
+						f.Close()
+						r.log("capture %s grew by one record", n)
+						c.Label("imported-capture-file-grew")
+					}
+				}
+			}
 		case "hook":
 			u := rapid.SampledFrom([]string{"http://127.0.0.1:1/a", "http://127.0.0.1:1/b", "http://127.0.0.1:1/c"}).Draw(rt, "hook")
 			if rapid.IntRange(0, 2).Draw(rt, "addhook") != 0 {
